@@ -148,7 +148,14 @@ func HeaderCount(b []byte) (int, bool) {
 // number of distinct right languages (minimality).
 func CheckStructure(nodes []dawg.VerifNode, set *refdawg.Set) *Finding {
 	trie := set.Trie()
-	minimal := trie.Minimise()
+	return CheckStructureTrie(nodes, trie, trie.Minimise())
+}
+
+// CheckStructureTrie is CheckStructure with the trie of the set and its
+// number of distinct right languages (trie.Minimise(), which also labels the
+// trie nodes with their classes) computed by the caller, for sets whose
+// automata are checked many times.
+func CheckStructureTrie(nodes []dawg.VerifNode, trie *refdawg.Trie, minimal int) *Finding {
 	if len(nodes) == 0 {
 		return &Finding{"structure-no-nodes", "VerifNodes returned no node", "the root"}
 	}
@@ -219,8 +226,10 @@ func CheckStructure(nodes []dawg.VerifNode, set *refdawg.Set) *Finding {
 
 // CheckOpts selects the parts of FullCheck.
 type CheckOpts struct {
-	Probes     [][]byte // further probe strings (members or not)
-	SkipEncode bool     // do not read the node count from GobEncode
+	Probes     [][]byte      // further probe strings (members or not)
+	SkipEncode bool          // do not read the node count from GobEncode
+	Trie       *refdawg.Trie // optional: the trie of the set, already minimised (Minimal = its Minimise())
+	Minimal    int
 }
 
 // FullCheck compares a built automaton with the set: NumberOfWords, Lookup
@@ -296,7 +305,11 @@ func FullCheck(c *engine.Ctx, key string, d *dawg.Dawg, set *refdawg.Set, o Chec
 		return nil, pi, "VerifNodes"
 	}
 	c.Eval(1)
-	if f := CheckStructure(nodes, set); f != nil {
+	if o.Trie != nil {
+		if f := CheckStructureTrie(nodes, o.Trie, o.Minimal); f != nil {
+			return f, nil, "nodes"
+		}
+	} else if f := CheckStructure(nodes, set); f != nil {
 		return f, nil, "nodes"
 	}
 	c.Obs("structure_walks", 1)
